@@ -11,6 +11,7 @@ import (
 	"crypto/tls"
 	"encoding/json"
 	"io"
+	"os"
 	"strconv"
 	"testing"
 	"time"
@@ -21,6 +22,7 @@ import (
 	"github.com/gotid/god/internal/verifdrv/c12raw"
 	"github.com/gotid/god/lib/breaker"
 	"github.com/gotid/god/lib/logx"
+	"github.com/gotid/god/lib/prometheus"
 )
 
 type verifOp struct {
@@ -1190,6 +1192,11 @@ func verifConnFail(c verifCase) any {
 
 func TestVerifDriver(t *testing.T) {
 	logx.Disable()
+	if os.Getenv("VERIF_C12_METRICS") == "1" {
+		// this driver process runs with the Prometheus agent ENABLED: the wrapper's go-redis hook then really
+		// records durations and errors (label values are checked against the declared labels)
+		prometheus.StartAgent(prometheus.Config{Host: "127.0.0.1", Port: 0, Path: "/metrics"})
+	}
 	verifdrv.Run(t, func(raw json.RawMessage) any {
 		var c verifCase
 		if err := json.Unmarshal(raw, &c); err != nil {
